@@ -537,7 +537,15 @@ class POP3SubprocessInterface:
             while True:
                 if self.reader is None or self.reader.at_eof():
                     break
-                msg = await self.reader.readuntil(b"\r\n")
+                try:
+                    msg = await self.reader.readuntil(b"\r\n")
+                except asyncio.LimitOverrunError as exc:
+                    # More octets than the reader's limit without a line
+                    # terminator (a long line in a message). They are
+                    # still in the reader's buffer: pass them on as they
+                    # are and carry on.
+                    #
+                    msg = await self.reader.readexactly(exc.consumed)
                 await self.pop3_client.push(msg)
         except (OSError, asyncio.IncompleteReadError, ConnectionResetError):
             pass
